@@ -426,3 +426,33 @@ def _stmt_at(m, node):
                 if any(x is node for x in ast.walk(n)):
                     best = n
     return best or node
+
+
+_F = "pydcop/infrastructure/computations.py"
+VARIANTS = [
+    ("start_lifo", _F, "            src, msg, t = self._paused_messages_recv.pop(0)\n            # Do NOT call on_message directly, that would block the\n            # agent's thread for a potentially long time during which we\n            # would not be able to handle any mgt message.\n            # Instead, inject the message with",
+     "            src, msg, t = self._paused_messages_recv.pop()\n            # Do NOT call on_message directly, that would block the\n            # agent's thread for a potentially long time during which we\n            # would not be able to handle any mgt message.\n            # Instead, inject the message with", "break", "R-FIFO.consumer"),
+    ("post_lifo", _F, "target, msg, prio, e = self._paused_messages_post.pop(0)", "target, msg, prio, e = self._paused_messages_post.pop(-1)", "break", "R-FIFO.consumer"),
+    ("post_insert_head", _F, "self._paused_messages_post.append((target, msg, prio, on_error))", "self._paused_messages_post.insert(0, (target, msg, prio, on_error))", "break", "R-FIFO.producer"),
+    ("recv_guard_or", _F, "if not self.is_paused and self._running:", "if not self.is_paused or self._running:", "break", "R-FIFO"),
+    ("recv_guard_drop_running", _F, "if not self.is_paused and self._running:", "if not self.is_paused:", "break", "R-FIFO"),
+    ("prio_algo", _F, "            self._msg_sender(src, self.name, msg, 19)\n        self.logger.debug(\n            f\"On starting", "            self._msg_sender(src, self.name, msg, 20)\n        self.logger.debug(\n            f\"On starting", "break", "R-FIFO.prio"),
+    ("prio_none", _F, "                self._msg_sender(src, self.name, msg, 19)", "                self._msg_sender(src, self.name, msg, None)", "break", "R-FIFO.prio"),
+    ("swap_roles", _F, "                self._msg_sender(src, self.name, msg, 19)", "                self._msg_sender(self.name, src, msg, 19)", "break", "R-FIFO.roles"),
+    ("repost_drop_prio", _F, "self.post_msg(target, msg, prio, e)", "self.post_msg(target, msg)", "break", "R-FIFO.roles"),
+    ("running_after_drain", _F, "        self._running = True\n        self.on_start()\n", "        self.on_start()\n", "break", "R-FIFO.flags"),
+    ("pause_flag_after", _F, "        if self._is_paused != is_paused:\n            self._is_paused = is_paused\n            self.on_pause(is_paused)\n\n        if not is_paused:\n",
+     "        if self._is_paused != is_paused:\n            self.on_pause(is_paused)\n\n        if not is_paused:\n", "break", "R-FIFO.flags"),
+    ("drain_when_pausing", _F, "        if not is_paused:\n\n            waiting_msg_count = 0", "        if is_paused:\n\n            waiting_msg_count = 0", "break", "R-FIFO.flags"),
+    ("skip_every_other", _F, "                target, msg, prio, e = self._paused_messages_post.pop(0)\n                self.post_msg(target, msg, prio, e)",
+     "                target, msg, prio, e = self._paused_messages_post.pop(0)\n                if prio is not None:\n                    self.post_msg(target, msg, prio, e)", "break", "R-FIFO.once"),
+    ("send_while_paused", _F, "        if not self.is_paused:\n            self._msg_sender(self.name, target, msg, prio, on_error)", "        if not self.is_paused or prio is not None:\n            self._msg_sender(self.name, target, msg, prio, on_error)", "break", "R-FIFO"),
+    ("outsider_clears", "pydcop/algorithms/dsa.py", "    def on_start(self):\n", "    def on_pause(self, paused):\n        self._paused_messages_recv.clear()\n\n    def on_start(self):\n", "break", "R-FIFO.owner"),
+    # neutral edits
+    ("n_popleft_deque", _F, "target, msg, prio, e = self._paused_messages_post.pop(0)", "target, msg, prio, e = self._paused_messages_post.pop(0)  # head", "neutral"),
+    ("n_rename_locals", _F, "                target, msg, prio, e = self._paused_messages_post.pop(0)\n                self.post_msg(target, msg, prio, e)",
+     "                tgt, m, p, err = self._paused_messages_post.pop(0)\n                self.post_msg(tgt, m, p, err)", "neutral"),
+    ("n_swap_test", _F, "if not self.is_paused and self._running:", "if self._running and not self.is_paused:", "neutral"),
+    ("n_invert_branches", _F, "        if not self.is_paused:\n            self._msg_sender(self.name, target, msg, prio, on_error)\n            event_bus.send(\n                \"computations.message_snd.\" + self.name, (self.name, msg.size)\n            )\n        else:\n            self._paused_messages_post.append((target, msg, prio, on_error))",
+     "        if self.is_paused:\n            self._paused_messages_post.append((target, msg, prio, on_error))\n        else:\n            self._msg_sender(self.name, target, msg, prio, on_error)\n            event_bus.send(\n                \"computations.message_snd.\" + self.name, (self.name, msg.size)\n            )", "neutral"),
+]
